@@ -55,6 +55,10 @@ ASSUMPTIONS = [
     "(Bio.SeqIO write, parse, Record.from_biopython); the order of module features inside a record is not judged",
     "merging is emulated exactly as generate_domains calls combine_modules (argument order chosen by the strand of the "
     "later gene); the pipeline subcheck runs generate_domains itself with the three HMMER front ends replaced",
+    "the docking/COM domains set aside by the statement are the four profiles NRPS-COM_Nterm/Cterm and "
+    "PKS_Docking_Nterm/Cterm; the filter subchecks call filter_nonterminal_docking_domains (the exit of "
+    "find_domains) and only require that nothing else is removed and none of the four within 50 aa (start < 50 "
+    "or length - end < 50, the code's distance) of a protein end; that the others are removed is not judged",
 ]
 
 # --------------------------------------------------------------------------- frozen alphabet (documented classes)
@@ -982,6 +986,112 @@ def check_pipeline(spec: dict) -> dict:
     return {"nontrivial": multi > 0 or total >= 2, "classes": classes}
 
 
+# --------------------------------------------------------------------------- the docking filter in front of module building
+
+# filter_nonterminal_docking_domains is what find_domains returns its hits through, i.e. what generate_domains hands to
+# build_modules_for_cds. The statement's only exemption from "without loss" is "docking/COM domains aside": the four
+# inter-protein docking / COM profiles (NON_MODULE above; the set named in the filter). The distance is the one in the
+# filter's docstring and code ("first or last 50 amino acids": start < 50 or protein length - end < 50).
+FILTER_TERMINAL = 50
+FILTER_EXTRAS = NON_MODULE + SPECIAL
+FILTER_TEMPLATES = ((), ("KS", "CP"), ("KS:T", "KR", "CP"), ("KS", "AT", "CP"), ("C", "A", "PCP"), ("A", "PCP", "TE"),
+                    ("KS", "DH", "CP", "KS", "CP"))
+FILTER_OFFSETS = (5, 49, 50, 70)      # start of the first hit
+FILTER_TAILS = (5, 49, 50, 90)        # protein length - end of the last hit
+
+
+def _filter_terminal(dom: dict, protein: int) -> bool:
+    return protein - max(dom["s"], dom["e"]) < FILTER_TERMINAL or min(dom["s"], dom["e"]) < FILTER_TERMINAL
+
+
+def _filter_record(genes: list):
+    from vlib.build import make_cds, make_record
+    pos = 30
+    places = []
+    for gene in genes:
+        places.append((pos, pos + 3 * gene["protein"]))
+        pos += 3 * gene["protein"] + 60
+    record = make_record(pos + 30, False)
+    for gene, (start, end) in zip(genes, places):
+        record.add_cds_feature(make_cds({"parts": [[start, end]], "strand": gene.get("strand", 1)}, gene["name"],
+                                        translation="M" + "A" * (gene["protein"] - 1)))
+    return record
+
+
+def check_filter(spec: dict) -> dict:
+    """ genes: [{"name", "protein": length, "doms": [...], "strand"}]; the hits go through the docking filter and
+        then, gene by gene, into build_modules_for_cds: only the four docking/COM profiles may disappear, and only
+        away from both protein ends; everything else survives in order and the modules partition it """
+    from antismash.detection.nrps_pks_domains import domain_identification as di
+    from antismash.detection.nrps_pks_domains.module_identification import build_modules_for_cds
+
+    genes = spec["genes"]
+    record = _filter_record(genes)
+    hits = {}
+    for index, gene in enumerate(genes):
+        if gene["doms"]:
+            hits[gene["name"]] = [_hmm(dom, i, index) for i, dom in enumerate(gene["doms"])]
+    if not hits:
+        return {"nontrivial": False, "classes": ["no_domains"]}
+    with code_under_test("filter_total"):
+        result = di.filter_nonterminal_docking_domains(record, {name: list(found) for name, found in hits.items()})
+    unknown = sorted(set(result) - set(hits))
+    if unknown:
+        raise Violation("filter_invented_gene", {"genes": unknown})
+    classes = set()
+    removed_total = 0
+    summary = {"modules": 0}
+    for index, gene in enumerate(genes):
+        name = gene["name"]
+        if name not in hits:
+            continue
+        given = hits[name]
+        place = {id(hit): i for i, hit in enumerate(given)}
+        got = list(result.get(name) or [])
+        positions = []
+        for hit in got:
+            if id(hit) not in place:
+                raise Violation("filter_invented_hit", {"gene": name, "hit": str(hit)})
+            i = place[id(hit)]
+            dom = gene["doms"][i]
+            if (hit.hit_id, hit.query_start, hit.query_end) != (dom["id"], dom["s"], dom["e"]):
+                raise Violation("filter_altered_hit", {"gene": name, "index": i, "hit": str(hit), "given": dom})
+            positions.append(i)
+        if any(a >= b for a, b in zip(positions, positions[1:])):
+            raise Violation("filter_order", {"gene": name, "got": positions})
+        survived = set(positions)
+        for i, dom in enumerate(gene["doms"]):
+            terminal = _filter_terminal(dom, gene["protein"])
+            where = "terminal" if terminal else "nonterminal"
+            special = dom["id"] in NON_MODULE or dom["id"] in SPECIAL
+            if i in survived:
+                if special:
+                    classes.add(f"{dom['id']}_{where}_kept")
+                continue
+            removed_total += 1
+            detail = {"gene": name, "protein_length": gene["protein"], "lost": [i, dom["id"], dom["s"], dom["e"]],
+                      "given": [d["id"] for d in gene["doms"]], "kept": positions}
+            if dom["id"] not in NON_MODULE:
+                raise Violation("filter_lost_domain", detail)
+            if terminal:
+                raise Violation("filter_lost_terminal_docking", detail)
+            classes.add(f"{dom['id']}_{where}_removed")
+        # what the filter lets through is what module building gets: the modules still cover all of the gene's
+        # domains that are not docking/COM domains, in order
+        with code_under_test("build_total"):
+            modules = build_modules_for_cds(list(got), name)
+        part = _check_gene_modules(gene, index, given, modules, reload=False)
+        summary["modules"] += part["modules"]
+        if part["trans_at"]:
+            classes.add("has_trans_at")
+    if len(hits) > 1:
+        classes.add("two_genes")
+    if spec.get("kind"):
+        classes.add(f"kind_{spec['kind']}")
+    nontrivial = removed_total > 0 or any(label.endswith("_nonterminal_kept") for label in classes)
+    return {"nontrivial": nontrivial, "classes": sorted(classes)}
+
+
 SUBCHECKS = {
     "gene": check_gene,
     "gene_enum": check_gene,
@@ -989,6 +1099,8 @@ SUBCHECKS = {
     "pair_enum": check_pair,
     "pipeline": check_pipeline,
     "pipeline_enum": check_pipeline,
+    "filter": check_filter,
+    "filter_enum": check_filter,
 }
 
 
@@ -1476,6 +1588,63 @@ def pipeline_specs(draw):
     return {"genes": genes, "strands": strands, "kind": kind}
 
 
+def _filter_gene(doms: list, offset: int, tail: int, name: str = "g0", pitch: int = 100, size: int = 80) -> dict:
+    placed = [dict(dom, s=offset + pitch * i, e=offset + pitch * i + size) for i, dom in enumerate(doms)]
+    return {"name": name, "doms": placed, "protein": (placed[-1]["e"] if placed else 10) + tail}
+
+
+def enum_filter(thorough: bool):
+    """ every template with one of the four docking/COM names, Trans-AT_docking or TIGR01720 at every position, and
+        with every ordered pair of them side by side at every position (thorough: anywhere), the first hit starting
+        below / at / above the terminal distance and the last one ending below / at / above it from the end """
+    def cases():
+        for template in FILTER_TEMPLATES:
+            base = []
+            for token in template:
+                dom = token_domain(token, 0)
+                del dom["s"], dom["e"]
+                base.append(dom)
+            count = len(base)
+            for extra in FILTER_EXTRAS:
+                for at in range(count + 1):
+                    doms = base[:at] + [{"id": extra}] + base[at:]
+                    for offset in FILTER_OFFSETS:
+                        for tail in FILTER_TAILS:
+                            yield {"genes": [_filter_gene(doms, offset, tail)], "kind": "one"}
+            for first, second in itertools.product(FILTER_EXTRAS, repeat=2):
+                for at in range(count + 1):
+                    for at2 in (range(at, count + 1) if thorough else (at,)):
+                        doms = base[:at] + [{"id": first}] + base[at:at2] + [{"id": second}] + base[at2:]
+                        for offset in (FILTER_OFFSETS if thorough else (5, 70)):
+                            for tail in (FILTER_TAILS if thorough else (5, 90)):
+                                yield {"genes": [_filter_gene(doms, offset, tail)], "kind": "two"}
+        # short docking-sized hits on a reverse-strand gene next to a gene whose only hit is filtered away
+        for extra in FILTER_EXTRAS:
+            for offset, tail in itertools.product(FILTER_OFFSETS, FILTER_TAILS):
+                lone = _filter_gene([{"id": extra}], offset, tail, "g0", size=30)
+                other = _filter_gene([{"id": "PKS_KS"}, {"id": extra}, {"id": "ACP"}, {"id": extra}], offset, tail, "g1",
+                                     pitch=60, size=30)
+                other["strand"] = -1
+                yield {"genes": [lone, other], "kind": "lone"}
+    return cases
+
+
+@st.composite
+def filter_specs(draw):
+    genes = []
+    for index in range(draw(st.sampled_from([1, 1, 2]))):
+        kind = draw(st.sampled_from(["uniform", "template", "template"]))
+        doms = _uniform_string(draw, 8) if kind == "uniform" else _templated_string(draw, 2)[:10]
+        for _ in range(draw(st.integers(0, 3))):
+            doms.insert(draw(st.integers(0, len(doms))), {"id": draw(st.sampled_from(FILTER_EXTRAS))})
+        gene = _positioned(draw, doms, f"g{index}", allow_disorder=False)
+        tail = draw(st.sampled_from([1, 10, 48, 49, 50, 51, 80, 200]))
+        gene["protein"] = max([dom["e"] for dom in gene["doms"]] + [10]) + tail
+        gene["strand"] = draw(st.sampled_from([1, 1, -1]))
+        genes.append(gene)
+    return {"genes": genes}
+
+
 def run(ctx) -> None:
     shards = ctx.pick(8, 16)
     ctx.extra["bounds"] = {"gene_enum_max_len": ctx.pick(3, 4), "gene_symbols": len(GENE_SYMBOLS),
@@ -1483,7 +1652,9 @@ def run(ctx) -> None:
     ctx.enum("gene_enum", enum_genes(ctx.pick(3, 4)), shards=shards)
     ctx.enum("pair_enum", enum_pairs(ctx.thorough), shards=shards)
     ctx.enum("pipeline_enum", enum_pipeline(ctx.thorough), shards=shards)
+    ctx.enum("filter_enum", enum_filter(ctx.thorough), shards=shards)
     rand_shards = ctx.pick(8, 16)
     ctx.hyp("gene", gene_specs(), max_examples=ctx.pick(2500, 40000), shards=rand_shards)
     ctx.hyp("pair", pair_specs(), max_examples=ctx.pick(2500, 40000), shards=rand_shards)
     ctx.hyp("pipeline", pipeline_specs(), max_examples=ctx.pick(800, 12000), shards=rand_shards)
+    ctx.hyp("filter", filter_specs(), max_examples=ctx.pick(1500, 20000), shards=rand_shards)
